@@ -4,6 +4,7 @@ import (
 	"context"
 	"errors"
 	"fmt"
+	"reflect"
 	"time"
 
 	pkts "github.com/energomonitor/bisquitt/packets"
@@ -14,6 +15,19 @@ import (
 )
 
 type TXResult struct{}
+
+// txErrStr names the package's own sentinel errors by identity, not by their wording
+func txErrStr(err error) string {
+	switch {
+	case err == nil:
+		return "nil"
+	case errors.Is(err, transactions.ErrNoMoreRetries):
+		return "no more retries"
+	case errors.Is(err, transactions.ErrTimeout):
+		return "transaction timeout"
+	}
+	return err.Error()
+}
 
 var errTXUser = errors.New("user-fail")
 var errTXCallback = errors.New("callback-fail")
@@ -77,7 +91,7 @@ func (s *Sim) runTX(res *Result, horizon time.Duration) {
 		// scheduler controls (an observer goroutine of its own would be scheduled by the Go runtime).
 		sample := func(where string) {
 			if t != nil && isDone() {
-				w.Log("tx", "sample", nil, errStr(t.Err()), 0)
+				w.Log("tx", "sample", nil, txErrStr(t.Err()), 0)
 			}
 		}
 		finally := func() { w.Log("tx", "finally", nil, "", 0) }
@@ -98,6 +112,21 @@ func (s *Sim) runTX(res *Result, horizon time.Duration) {
 					return nil
 				}, finally)
 				t = rt
+				if len(tx.Pauses) > 0 {
+					// by name: a tree without the field still builds (the plan is then not judged)
+					if f := reflect.ValueOf(rt).Elem().FieldByName("Paused"); f.IsValid() && f.CanSet() && f.Type() == reflect.TypeOf((func() bool)(nil)) {
+						f.Set(reflect.ValueOf(func() bool {
+							now := int64(w.Now())
+							for _, pw := range tx.Pauses {
+								if now >= pw[0] && now < pw[1] {
+									return true
+								}
+							}
+							return false
+						}))
+						w.Log("tx", "pausable", nil, "", 0)
+					}
+				}
 			} else {
 				t = transactions.NewTimedTransaction(ctx, time.Duration(tx.DelayNs), finally)
 			}
@@ -135,7 +164,7 @@ func (s *Sim) runTX(res *Result, horizon time.Duration) {
 			if isDone() {
 				d = 1
 			}
-			w.Log("tx", "final", nil, errStr(t.Err()), d)
+			w.Log("tx", "final", nil, txErrStr(t.Err()), d)
 		}
 		cancel()
 	case "idseq":
